@@ -50,6 +50,12 @@ type Pipe struct {
 	fault      PipeFault
 	faultFired bool
 	junkPos    int
+	wfaultAt   int64 // Write fails (short count + error) once this many bytes were accepted; <0 = never
+	wfaultHit  bool
+	// readerGone is set when a terminal read fault (EOF, error, end of junk) has
+	// fired: whatever the writer sends from then on goes nowhere, so its writes
+	// fail like writes to a closed pipe instead of blocking for ever.
+	readerGone bool
 
 	// observations
 	Record        []byte // every byte accepted from writers, in order
@@ -72,7 +78,13 @@ var (
 )
 
 // NewPipe creates a pipe.
-func NewPipe(cfg PipeConfig) *Pipe { return &Pipe{cfg: cfg, fault: PipeFault{At: -1}} }
+func NewPipe(cfg PipeConfig) *Pipe { return &Pipe{cfg: cfg, fault: PipeFault{At: -1}, wfaultAt: -1} }
+
+// SetWriteFault makes Write return a short count and ErrInjected at byte offset at.
+func (p *Pipe) SetWriteFault(at int64) { p.mu.Lock(); p.wfaultAt = at; p.mu.Unlock() }
+
+// WriteFaultFired reports whether the write fault hit a Write.
+func (p *Pipe) WriteFaultFired() bool { p.mu.Lock(); defer p.mu.Unlock(); return p.wfaultHit }
 
 // SetFault installs a fault on the reader's view.
 func (p *Pipe) SetFault(f PipeFault) { p.mu.Lock(); p.fault = f; p.mu.Unlock() }
@@ -127,10 +139,10 @@ func (p *Pipe) Write(b []byte) (int, error) {
 		ParkUntil(sitePipeWriteW, func() bool {
 			p.mu.Lock()
 			defer p.mu.Unlock()
-			return p.rclosed || p.wclosed || p.space() > 0
+			return p.rclosed || p.wclosed || p.readerGone || p.space() > 0
 		})
 		p.mu.Lock()
-		if p.wclosed || p.rclosed {
+		if p.wclosed || p.rclosed || p.readerGone {
 			p.mu.Unlock()
 			return n, io.ErrClosedPipe
 		}
@@ -151,6 +163,21 @@ func (p *Pipe) Write(b []byte) (int, error) {
 		if sp := p.space(); sp < piece {
 			piece = sp
 		}
+		if p.wfaultAt >= 0 && p.written+int64(piece) > p.wfaultAt {
+			piece = int(p.wfaultAt - p.written)
+			if piece < 0 {
+				piece = 0
+			}
+			if piece > 0 {
+				p.buf = append(p.buf, b[n:n+piece]...)
+				p.Record = append(p.Record, b[n:n+piece]...)
+				p.written += int64(piece)
+				n += piece
+			}
+			p.wfaultHit = true
+			p.mu.Unlock()
+			return n, ErrInjected
+		}
 		if piece > 0 {
 			p.buf = append(p.buf, b[n:n+piece]...)
 			p.Record = append(p.Record, b[n:n+piece]...)
@@ -167,11 +194,11 @@ func (p *Pipe) Write(b []byte) (int, error) {
 		ParkUntil(sitePipeWriteW, func() bool {
 			p.mu.Lock()
 			defer p.mu.Unlock()
-			return p.rclosed || p.wclosed || len(p.buf) == 0
+			return p.rclosed || p.wclosed || p.readerGone || len(p.buf) == 0
 		})
 		p.mu.Lock()
 		left := len(p.buf)
-		closed := p.rclosed
+		closed := p.rclosed || p.readerGone
 		p.mu.Unlock()
 		if left > 0 && closed {
 			return n - left, io.ErrClosedPipe
@@ -208,20 +235,24 @@ func (p *Pipe) Read(b []byte) (int, error) {
 			switch f.Kind {
 			case FaultEOF:
 				p.buf = nil
+				p.readerGone = true
 				p.mu.Unlock()
 				return 0, io.EOF
 			case FaultIOErr:
 				p.buf = nil
+				p.readerGone = true
 				p.mu.Unlock()
 				return 0, ErrInjected
 			case FaultStall:
 				p.buf = nil
+				p.readerGone = true
 				p.mu.Unlock()
 				time.Sleep(f.StallFor)
 				Yield(sitePipeReadW)
 				return 0, io.EOF
 			case FaultGarbage:
 				p.buf = nil
+				p.readerGone = true
 				if p.junkPos >= len(f.Junk) {
 					p.mu.Unlock()
 					return 0, io.EOF
@@ -301,6 +332,13 @@ func (p *Pipe) CloseRead() error {
 	p.rclosed = true
 	p.mu.Unlock()
 	return nil
+}
+
+// WriteEnds returns the stream offsets at which Write calls ended (message boundaries).
+func (p *Pipe) WriteEnds() []int64 {
+	p.mu.Lock()
+	defer p.mu.Unlock()
+	return append([]int64(nil), p.writeEnds...)
 }
 
 // Closed reports (write side closed, read side closed).
